@@ -668,6 +668,30 @@ fn judge_c08(t: &SupplyTrace, o: &SupplyOutcome, ev: &LevelEval, root_sig_bad: b
                             _ => {}
                         }
                     }
+                    // a file the command modified, pinned by the rules to what it was before the command
+                    // (MATCH f WITH MATERIALS FROM <the inspection itself>, then DISALLOW f)
+                    if insp.exp_prod.len() == 2 && insp.exp_prod[0].len() == 6 && insp.exp_prod[0][0] == "MATCH" && insp.exp_prod[0][3] == "MATERIALS" && insp.exp_prod[0][5] == insp.name && insp.exp_prod[1].len() == 2 && insp.exp_prod[1][0] == "DISALLOW" && insp.exp_prod[1][1] == insp.exp_prod[0][1] && !t.root.layout.steps.iter().any(|s| s.name == insp.name) {
+                        let fname = &insp.exp_prod[0][1];
+                        let orig = t.work_files.iter().find(|w| &w.0 == fname).map(|w| w.1.clone());
+                        let mut cur = orig.clone();
+                        for op in &a.ops {
+                            match op {
+                                FsOp::Write { path, content } if path == fname => cur = Some(content.clone()),
+                                FsOp::Append { path, content } if path == fname => cur = Some(format!("{}{}", cur.clone().unwrap_or_default(), content)),
+                                FsOp::Remove { path } if path == fname => cur = None,
+                                FsOp::TamperKeepStat { path } if path == fname => cur = cur.map(|c| format!("{c}\u{0}tampered")),
+                                _ => {}
+                            }
+                        }
+                        if orig.is_some() && cur.is_some() && cur != orig {
+                            f.push(finding(
+                                "C08",
+                                "inspection-rule-violation-accepted",
+                                format!("repetition {rep}: inspection {}: its command changed the content of '{fname}', its rules admit that product only with the digest it had as a material, yet verification returned Ok", a.id),
+                            ));
+                            return;
+                        }
+                    }
                     for (rules, present, what) in [(&insp.exp_mat, &before, "materials"), (&insp.exp_prod, &after, "products")] {
                         // (only a DISALLOW that comes first: a rule before it could have consumed the file)
                         for r in rules.iter().take(1) {
